@@ -82,6 +82,33 @@ def do_import(pid, src):
         sh(["git", "-C", "/repo", "worktree", "remove", "--force", wt])
 
 
+def do_reverify(names):
+    """re-verify seeds already stored in /verif/seeded against the current /repo HEAD"""
+    wt = "/tmp/lqreverify_%d" % os.getpid()
+    sh(["git", "-C", "/repo", "worktree", "add", "-q", "--detach", wt, "HEAD"])
+    try:
+        for name in names:
+            dst = os.path.join(SEEDED, name)
+            env = dict(os.environ, PYTHONPATH=wt)
+            rc0, o0 = sh([PY, os.path.join(dst, "demo.py"), wt], cwd=wt, env=env, timeout=600)
+            rca, oa = sh(["git", "apply", os.path.join(dst, "patch.diff")], cwd=wt)
+            rc1, o1 = sh([PY, os.path.join(dst, "demo.py"), wt], cwd=wt, env=env, timeout=600)
+            missing = run_tests(wt) if rca == 0 else ["patch did not apply"]
+            sh("git checkout -- . && git clean -fdq", cwd=wt)
+            meta = json.load(open(os.path.join(dst, "meta.json")))
+            meta["verified"] = {
+                "patch_applies": rca == 0, "demo_exit_unchanged_tree": rc0, "demo_exit_with_change": rc1,
+                "baseline_tests_not_passing_with_change": missing,
+                "what_i_ran": "scratch worktree of /repo HEAD %s: demo.py (exit %d), git apply, demo.py (exit %d), pinned pytest suite compared with BASELINE.json stable_pass" % (
+                    sh(["git", "-C", "/repo", "rev-parse", "--short", "HEAD"])[1].strip(), rc0, rc1),
+            }
+            meta["kept"] = bool(rca == 0 and rc0 == 0 and rc1 != 0 and not missing)
+            json.dump(meta, open(os.path.join(dst, "meta.json"), "w"), indent=1)
+            print(name, "kept" if meta["kept"] else "REJECTED", "demo %d->%d" % (rc0, rc1), "tests missing: %d" % len(missing), flush=True)
+    finally:
+        sh(["git", "-C", "/repo", "worktree", "remove", "--force", wt])
+
+
 def do_run(names, tier, props):
     res = {}
     for name in names:
@@ -116,7 +143,42 @@ def do_run(names, tier, props):
         json.dump(r, open(rp, "w"), indent=1)
 
 
+def do_report():
+    rows = []
+    for name in sorted(x for x in os.listdir(SEEDED) if os.path.isdir(os.path.join(SEEDED, x))):
+        d = os.path.join(SEEDED, name)
+        try:
+            meta = json.load(open(os.path.join(d, "meta.json")))
+        except Exception:
+            continue
+        res = {}
+        if os.path.exists(os.path.join(d, "result.json")):
+            res = json.load(open(os.path.join(d, "result.json")))
+        verdicts = "; ".join("%s: %s" % (k, v.get("verdict")) for k, v in sorted(res.items())) or "-"
+        rows.append((name, meta.get("property"), "kept" if meta.get("kept") else "rejected", (meta.get("title") or meta.get("what_it_breaks") or "")[:110].replace("|", "/"),
+                     (meta.get("needs_to_manifest") or "")[:140].replace("|", "/").replace("\n", " "), verdicts))
+    with open(os.path.join(SEEDED, "RESULTS.md"), "w") as f:
+        f.write("# Seeded defects and which check catches them\n\n")
+        f.write("Generated by `tools_seed.py report` from seeded/*/meta.json and result.json. 'kept' = the patch applies to the current tree, its demonstration fails with it and passes without it, and the pinned test-suite still passes with it (verified in a scratch worktree). 'rejected' = no longer a defect on the current tree (e.g. neutralised by a later fix:) or the patch no longer applies.\n\n")
+        f.write("| seed | property | status | change | needs | verdicts (check/tier: result) |\n|---|---|---|---|---|---|\n")
+        for r in rows:
+            f.write("| %s | %s | %s | %s | %s | %s |\n" % r)
+    kept = [r for r in rows if r[2] == "kept"]
+    caught = [r for r in kept if "caught" in r[5]]
+    print("%d seeds, %d kept, %d of the kept caught by at least one check" % (len(rows), len(kept), len(caught)))
+    for r in kept:
+        if "caught" not in r[5]:
+            print("  NOT CAUGHT:", r[0], r[5])
+
+
 def main():
+    if sys.argv[1] == "report":
+        return do_report()
+    if sys.argv[1] == "reverify":
+        allnames = sorted(x for x in os.listdir(SEEDED) if os.path.isdir(os.path.join(SEEDED, x)))
+        sel = sys.argv[2:]
+        names = allnames if sel == ["all"] else [x for x in allnames if x in sel or any(x.startswith(y + "-") for y in sel)]
+        return do_reverify(names)
     if sys.argv[1] == "import":
         do_import(sys.argv[2], sys.argv[3])
     elif sys.argv[1] == "run":
